@@ -135,28 +135,40 @@ def _iter_fn(chk, f, it_id, end):
 
     n_deref = 0
     bad = []
-    cond_alts = flow.cond_atoms(loop["cond"], True) if loop.get("cond") is not None else [[]]
-    for pre in cond_alts:
+
+    def scan(events, safe):
+        nonlocal n_deref
+        for e in events:
+            nodes = [e[1]] if e[0] in ("stmt", "cond", "return") else []
+            for nd in nodes:
+                for m in walk(nd):
+                    is_deref = (m.get("k") == "CXXOperatorCallExpr" and m.get("op") == "*" and len(m["c"]) == 2 and
+                                is_it(m["c"][1])) or (m.get("k") == "UnaryOperator" and m.get("op") == "*" and
+                                                      is_it(m["c"][0]))
+                    if is_deref:
+                        n_deref += 1
+                        if not safe:
+                            bad.append(m)
+                if e[0] == "stmt":
+                    for eff in AI.effects(nd):
+                        if eff[0] == "inc" and len(eff[3]) == 1 and eff[3][0][0] == "var" and eff[3][0][1] == it_id:
+                            safe = False
+            # the outcome of an end test is known only after it has been evaluated
+            if e[0] == "cond" and end_test(e[1], e[2]):
+                safe = True
+        return safe
+
+    if loop.get("cond") is not None:
+        true_alts = flow.cond_atoms(loop["cond"], True)
+        false_alts = flow.cond_atoms(loop["cond"], False)
+    else:
+        true_alts, false_alts = [[]], []
+    for alt in false_alts:
+        scan(alt, False)
+    for alt in true_alts:
         for ev, term_ in flow.paths(loop["body"], unroll=0):
-            safe = any(e[0] == "cond" and end_test(e[1], e[2]) for e in pre)
-            for e in ev:
-                if e[0] == "cond" and end_test(e[1], e[2]):
-                    safe = True
-                nodes = [e[1]] if e[0] in ("stmt", "cond", "return") else []
-                for nd in nodes:
-                    for m in walk(nd):
-                        is_deref = (m.get("k") == "CXXOperatorCallExpr" and m.get("op") == "*" and len(m["c"]) == 2 and
-                                    is_it(m["c"][1])) or (m.get("k") == "UnaryOperator" and m.get("op") == "*" and
-                                                          is_it(m["c"][0]))
-                        if is_deref:
-                            n_deref += 1
-                            if not safe:
-                                bad.append(m)
-                    # an advance invalidates the knowledge
-                    if e[0] == "stmt":
-                        for eff in AI.effects(nd):
-                            if eff[0] == "inc" and len(eff[3]) == 1 and eff[3][0][0] == "var" and eff[3][0][1] == it_id:
-                                safe = False
+            s0 = scan(alt, False)
+            scan(ev, s0)
     if n_deref == 0:
         chk.incomplete("%s: no dereference of the moving iterator found" % f.o["q"])
     if bad:
